@@ -274,6 +274,8 @@ func (r *Run) exec(src func(c *C) Src, prop func(c *C), replaying bool, rethrow 
 		if p := recover(); p != nil {
 			if fs, ok := p.(failSignal); ok {
 				viol = fs.v
+			} else if _, stale := p.(staleReplay); stale {
+				panic(p)
 			} else if isRapidControl(p) {
 				if rethrow {
 					panic(p)
@@ -379,7 +381,11 @@ func (r *Run) replayFile(path string, prop func(c *C)) (*Violation, error) {
 				panic(p)
 			}
 		}()
-		_, v := r.exec(func(c *C) Src { return &replaySrc{c: c, draws: cf.Draws} }, prop, true, false)
+		var rs *replaySrc
+		_, v := r.exec(func(c *C) Src { rs = &replaySrc{c: c, draws: cf.Draws}; return rs }, prop, true, false)
+		if rs != nil && rs.mismatches > 0 && rs.pos < len(rs.draws) {
+			r.res.Note += fmt.Sprintf("%s: recorded with an older generator (%d of %d draws used); ", filepath.Base(path), rs.pos, len(rs.draws))
+		}
 		if v != nil {
 			v.Replay = path
 			r.res.Violations = append(r.res.Violations, *v)
